@@ -58,7 +58,7 @@ def gen_plan(rng, tier, index):
     rng.shuffle(events)
     plan = {'mode': mode, 'shape': shape, 'bits': bits, 'radius': rng.pick(RADII), 'threshold': rng.pick(THRESH),
             'events': events, 'method': rng.pick(['euclidean', 'correlation', 'euclidean', 'correlation', 'mahalanobis', 'crossnobis', 'poisson']),
-            'mask_dtype': rng.pick(['bool', 'bool', 'int8', 'float64', 'int64']), 'containers': rng.pick([0, 0, 1, 2, 3, 4]), 'peek': rng.chance(0.3), 'prehistory': rng.chance(0.3), 'events_as': rng.pick(['list', 'array']),
+            'mask_dtype': rng.pick(['bool', 'bool', 'int8', 'float64', 'int64']), 'containers': rng.pick([0, 0, 1, 2, 3, 4]), 'peek': rng.chance(0.3), 'prehistory': rng.chance(0.3), 'eval_fn': rng.pick(['eval', 'eval', 'eval', 'tag_only']), 'events_as': rng.pick(['list', 'array']),
             'sched': {'n_jobs': rng.pick([1, 2, 3, 4, 8, 16, -1]), 'batch': rng.randint(1, 4),
                       'policy': rng.pick(['random', 'random', 'lifo', 'fifo']),
                       'straggler': rng.pick([None, None, 0, 1, 5]), 'seed': rng.randrange(10 ** 9)},
@@ -319,6 +319,12 @@ def tag_eval(models, x, method='corr', theta=None):
             'evals': np.array(r.evaluations, copy=True), 'n_rdm': x.n_rdm}
 
 
+def tag_only(models, x, method='corr', theta=None):
+    """an evaluation function that copes with any RDM (also an all-NaN one): reports which centre it was given"""
+    return {'voxel': int(np.asarray(x.rdm_descriptors['voxel_index']).ravel()[0]),
+            'evals': np.array([float(np.sum(np.isfinite(x.dissimilarities)))]), 'n_rdm': x.n_rdm}
+
+
 def _fp(obj):
     parts = [np.asarray(obj.dissimilarities).tobytes()]
     for dd in (obj.descriptors, obj.rdm_descriptors, obj.pattern_descriptors):
@@ -402,6 +408,10 @@ def execute(plan, ctx):
     mlist = models if isinstance(models, list) else [models]
     # correlation RDMs from single-voxel searchlights are NaN: keep only evaluable centres for the evaluation part
     ok = [i for i in range(sl.n_rdm) if np.all(np.isfinite(sl.dissimilarities[i])) and np.ptp(sl.dissimilarities[i]) > 0]
+    efn = tag_eval
+    if plan.get('eval_fn') == 'tag_only':
+        efn = tag_only
+        ok = list(range(sl.n_rdm))       # every centre, also those whose RDM is all NaN
     if len(ok) < 2:
         ctx.behaviour('eval', 'too-few-evaluable', shape_class)
         return
@@ -418,8 +428,11 @@ def execute(plan, ctx):
     reference = []
     for i in range(sl_ok.n_rdm):
         x = sl_ok[i]
-        reference.append({'voxel': int(np.asarray(x.rdm_descriptors['voxel_index']).ravel()[0]),
-                          'evals': np.array(eval_fixed(models, x, method=em, theta=theta).evaluations, copy=True)})
+        if efn is tag_only:
+            reference.append({k: v for k, v in tag_only(models, x).items() if k != 'n_rdm'})
+        else:
+            reference.append({'voxel': int(np.asarray(x.rdm_descriptors['voxel_index']).ravel()[0]),
+                              'evals': np.array(eval_fixed(models, x, method=em, theta=theta).evaluations, copy=True)})
     if plan.get('peek'):
         for _ in sl_ok:                # an earlier look at the first searchlight: an iteration abandoned after one item
             break
@@ -428,7 +441,7 @@ def execute(plan, ctx):
     sched = Scheduler(ctx, s['seed'], policy=s['policy'], batch_size=s['batch'], straggler=s['straggler'])
     try:
         with sched:
-            r_ = evaluate_models_searchlight(sl_ok, models, tag_eval, method=em, theta=theta, n_jobs=s['n_jobs'])
+            r_ = evaluate_models_searchlight(sl_ok, models, efn, method=em, theta=theta, n_jobs=s['n_jobs'])
             outs['sim'] = r_ if isinstance(r_, list) else list(r_)      # a lazily returned result is consumed under the scheduler
     except Stall as e:
         ctx.violation('sl_ref.progress', 'evaluate_models_searchlight:stall', f'evaluate_models_searchlight did not return: {e}')
@@ -437,7 +450,7 @@ def execute(plan, ctx):
         ctx.violation('sl_ref.eval', f'evaluate_models_searchlight:raises:{type(e).__name__}',
                       f'evaluate_models_searchlight raised {type(e).__name__}: {e} (n_jobs={s["n_jobs"]}, policy={s["policy"]})')
         return
-    outs['seq'] = evaluate_models_searchlight(sl_ok, models, tag_eval, method=em, theta=theta, n_jobs=1)
+    outs['seq'] = evaluate_models_searchlight(sl_ok, models, efn, method=em, theta=theta, n_jobs=1)
     for name, out in outs.items():
         out = list(out) if not isinstance(out, list) else out
         if len(out) != len(reference):
